@@ -592,10 +592,10 @@ func alphabet(nExt int, withInt bool, reduced bool) []string {
 	for i := 0; i < nExt; i++ {
 		a := fmt.Sprintf("E%d", i)
 		if reduced {
-			out = append(out, a+":reg:INVOKE", a+":reg:SHUTDOWN", a+":reg:INVOKE+BOGUS", a+":next", a+":next:unknown", a+":initerr:typed", a+":exiterr:typed")
+			out = append(out, a+":reg:INVOKE", a+":reg:SHUTDOWN", a+":reg:INVOKE+BOGUS", a+":reg:BOGUS+INVOKE", a+":next", a+":next:unknown", a+":initerr:typed", a+":exiterr:typed")
 			continue
 		}
-		for _, ev := range []string{"none", "INVOKE", "SHUTDOWN", "INVOKE+SHUTDOWN", "BOGUS", "INVOKE+BOGUS"} {
+		for _, ev := range []string{"none", "INVOKE", "SHUTDOWN", "INVOKE+SHUTDOWN", "BOGUS", "INVOKE+BOGUS", "BOGUS+INVOKE", "INVOKE+BOGUS+SHUTDOWN"} {
 			out = append(out, a+":reg:"+ev)
 		}
 		out = append(out, a+":regacct:INVOKE", a+":regjunk:SHUTDOWN", a+":regempty")
@@ -606,7 +606,7 @@ func alphabet(nExt int, withInt bool, reduced bool) []string {
 		if reduced {
 			out = append(out, "I0:reg:INVOKE", "I0:reg:SHUTDOWN", "I0:regas:e0", "I0:next", "I0:exiterr:typed")
 		} else {
-			out = append(out, "I0:reg:none", "I0:reg:INVOKE", "I0:reg:SHUTDOWN", "I0:reg:BOGUS", "I0:regacct:INVOKE", "I0:regas:e0", "I0:regempty",
+			out = append(out, "I0:reg:none", "I0:reg:INVOKE", "I0:reg:SHUTDOWN", "I0:reg:BOGUS", "I0:reg:BOGUS+INVOKE", "I0:regacct:INVOKE", "I0:regas:e0", "I0:regempty",
 				"I0:next", "I0:next:unknown", "I0:initerr:typed", "I0:initerr:untyped", "I0:exiterr:typed")
 		}
 	}
